@@ -13,6 +13,7 @@ structure Ctx (ρ : Rho) (A B : Env) : Prop where
   wfA : envWF A = true
   wfB : envWF B = true
   wfxA : envWFX A = true
+  wfuB : envWFU B = true
 
 /-! ### defaults -/
 
